@@ -230,6 +230,15 @@ def run(ctx: Ctx, tier: str) -> Result:
             res.ok("C03.ACT", {"action context from matched list": norm(c)})
         else:
             res.fail(Finding("C03.ACT", worker.qname, c, worker.loc(c), "an action context is created for something other than an element of the matched action list"))
+        # every matched action is considered on its own: inside the loop nothing decides beforehand that an action is skipped
+        # (what another action of the same tracepoint was refused for - no processor of its kind - need not hold for this one)
+        if lps:
+            skip_c = [(norm(x), pol) for x, pol in paths.conditions(p, c, worker) if paths.within(p, x, lps[0])]
+            if skip_c:
+                res.fail(Finding("C03.ACT", worker.qname, c, worker.loc(c), "a matched action is only considered when `%s%s`: an action skipped for what happened to another one (a metric action refused "
+                                 "for want of a processor) never acts although it is due" % ("" if skip_c[0][1] else "not ", skip_c[0][0][:60])))
+            else:
+                res.ok("C03.ACT", {"every matched action gets its context": worker.loc(c)})
         # isolation: catch-all inside the loop
         ct = g.catching_try(c, worker, "BaseException")
         if ct is not None and lps and paths.within(p, ct[0], lps[0]):
@@ -366,6 +375,7 @@ def run(ctx: Ctx, tier: str) -> Result:
     borrow(ctx, res, tier, "c15", ("C15.ONCE", "C15.THREAD"), "C03.DEFER", "the deferred part of an action is carried out by the event that ends the invocation that was hit, in its thread - "
            "a context that is put back after it was processed, or a queue shared between threads, lets another event (a later call, another thread's return) cause the action")
     borrow(ctx, res, tier, "c12", ("C12.ORDER",), "C03.PUBLISH", "the configuration published last is the latest one (read and publication are one critical section)")
+    borrow(ctx, res, tier, "c12", ("C12.APPLY",), "C03.PUBLISH", "every published configuration is installed, the empty one included (tracepoints that were removed stop acting)")
     return res
 
 
